@@ -282,3 +282,51 @@ Proof.
       cbn [List.rev firstn]. now rewrite <- app_assoc.
 Qed.
 End Z.
+
+(* ---- sender and receiver composed: a whole conversation over a transport that splits writes and reads arbitrarily ---- *)
+Section EndToEnd.
+Variable compress : list byte -> list byte.
+Variable decompress : list byte -> result (list byte).
+Hypothesis zlib_roundtrip : forall x, decompress (compress x) = Ok x.
+Variable P : cparams.
+Hypothesis Hhdr : hdr_size P = 5.
+Hypothesis Hchunk : hdr_size P + nlen (flusher P) <= chunk P.
+
+(* send each packet in turn, threading the write oracle and accumulating what reaches the wire *)
+Fixpoint send_all (cmp : bool) (evs : list wev) (pkts : list (list byte)) (wire : list byte) : result (bool * list byte) :=
+  match pkts with
+  | [] => Ok (true, wire)
+  | d :: t => match channel_send compress P cmp evs d with
+              | Ok (true, w, evs') => send_all cmp evs' t (wire ++ w)
+              | Ok (false, w, _) => Ok (false, wire ++ w)
+              | Raise e => Raise e | OutOfFuel => OutOfFuel | Unmodelled => Unmodelled
+              end
+  end.
+
+Lemma send_all_wire cmp : forall pkts fs evs wire, frames compress P cmp pkts = Ok fs -> benign_w evs ->
+  send_all cmp evs pkts wire = Ok (true, wire ++ concat fs).
+Proof.
+  induction pkts as [|d t IH]; intros fs evs wire Hfs Hb.
+  - cbn in Hfs. injection Hfs as <-. cbn. now rewrite app_nil_r.
+  - destruct (frames_cons compress P cmp d t fs Hfs) as (f & fs' & Hf & Hfs' & ->).
+    cbn [send_all].
+    assert (Hs : exists evs', channel_send compress P cmp evs d = Ok (true, f, evs') /\ benign_w evs').
+    { unfold channel_send.
+      assert (Hws : exists ws, send_writes compress P cmp d = Ok ws).
+      { unfold send_writes, frame in *. destruct (frame_body compress P cmp d) as [flag body].
+        destruct (header (nlen body) flag); cbn [bind] in *; try discriminate. destruct (_ <=? _); eauto. }
+      destruct Hws as (ws & Ew). rewrite Ew. cbn [bind].
+      pose proof (send_writes_concat compress P cmp d ws Ew) as Hc. rewrite Hf in Hc. injection Hc as ->.
+      destruct (do_writes_complete P Hhdr Hchunk ws evs [] Hb) as (evs' & E & B). exists evs'. now rewrite E. }
+    destruct Hs as (evs' & -> & B). rewrite (IH fs' evs' (wire ++ f) Hfs' B). cbn [concat]. now rewrite <- app_assoc.
+Qed.
+
+Theorem end_to_end tol cmp pkts fs wevs revs fuel : frames compress P cmp pkts = Ok fs -> benign_w wevs -> benign_r tol revs ->
+  (length pkts < fuel)%nat ->
+  exists wire, send_all cmp wevs pkts [] = Ok (true, wire) /\ recv_all decompress P fuel tol revs wire [] = (pkts, false).
+Proof.
+  intros Hfs Hw Hr Hfuel. exists (concat fs). split.
+  - now rewrite (send_all_wire cmp pkts fs wevs [] Hfs Hw).
+  - now apply (recv_all_delivery compress decompress zlib_roundtrip P Hhdr Hchunk tol cmp pkts fs revs []).
+Qed.
+End EndToEnd.
